@@ -19,6 +19,16 @@ PROPS = {
                   {"checks": 300, "steps": 60, "shards": 14, "timeout": 5000, "shrinktime": "120s"}),
         ],
     },
+    "C17": {
+        "level": "exploration",
+        "jobs": [
+            rapid("boundary", "^TestC17$", {"checks": 40, "shards": 8, "timeout": 900, "shrinktime": "20s"},
+                  {"checks": 900, "shards": 12, "timeout": 6000, "shrinktime": "60s"}),
+            rapid("race", "^TestC17Race$", {"checks": 3, "shards": 3, "timeout": 900, "shrinktime": "1s"},
+                  {"checks": 40, "shards": 6, "timeout": 6000, "shrinktime": "1s"},
+                  race=True, env={"VERIF_NO_PUBLISH_HEIGHT": "1"}, seed_offset=3),
+        ],
+    },
     "C20": {
         "level": "exploration",
         "jobs": [
